@@ -33,7 +33,7 @@ type c19Case struct {
 
 type c19World struct {
 	tmp, rootA, rootB, cwd, home, xdg string
-	portA, portB, dbgA, dbgB         int
+	portA, portB, dbgA, dbgB          int
 }
 
 func (w *c19World) value(setting, v string) string {
